@@ -23,7 +23,7 @@ def Good {α : Type} (P : α → Prop) (E : String → Prop) : Outcome α → Pr
 /-- membership-only description of a planned frame list over `n` bytes (offsets relative to 0) -/
 structure PlanOk (fl : List QFrame) (n : Nat) : Prop where
   frames : ∀ f ∈ fl, match f with
-    | .crypto off len => 0 ≤ off ∧ 0 ≤ rlen 0 n off len ∧ off + rlen 0 n off len ≤ n
+    | .crypto off len => 0 ≤ off ∧ 0 ≤ len ∧ off ≤ n
     | .padding l => 0 ≤ l
     | .ping => True
   zero : ∃ f ∈ fl, f.infoOff = 0
@@ -52,19 +52,26 @@ theorem PlanOk.ne_nil {fl : List QFrame} {n : Nat} (h : PlanOk fl n) : fl.isEmpt
 
 theorem PlanOk.tiles {fl : List QFrame} {n base : Nat} (h : PlanOk fl n) (hrep : base + n ≤ maxVarInt8) :
     TilesAt 0 fl n base := by
-  refine ⟨Int.le_refl _, ?_, ?_⟩
+  refine ⟨Int.le_refl _, ?_, ?_, ?_⟩
   · intro f hf
     have := h.frames f hf
     cases f with
     | crypto off len =>
-      simp only [FrameOk, rstart]
+      simp only [FrameOk]
       obtain ⟨h1, h2, h3⟩ := this
-      refine ⟨by omega, h2, by omega, by omega, by omega, by omega⟩
+      refine ⟨h1, h2, by omega, by omega, by omega⟩
     | padding l => exact this
     | ping => trivial
+  · intro off len hm
+    have := h.frames _ hm
+    simp only [] at this
+    omega
   · intro i hi
     obtain ⟨o, l, hm, h1, h2⟩ := h.cover i hi
-    exact ⟨o, l, hm, by simp only [rstart]; omega, by simp only [rstart]; omega⟩
+    have := h.frames _ hm
+    simp only [] at this
+    have hst : rstart 0 n o = o := by unfold rstart; omega
+    exact ⟨o, l, hm, by rw [hst]; omega, by rw [hst]; omega⟩
 
 /-- adding PADDING frames keeps a plan -/
 theorem PlanOk.append_paddings {fl pads : List QFrame} {n : Nat} (h : PlanOk fl n)
@@ -147,12 +154,11 @@ theorem rfPlan_spec (c : RFCfg) (data : List UInt8) (d : Draws) (hrep : data.len
               · rcases List.mem_append.mp hf with hf | hf
                 · obtain rfl := List.eq_of_mem_replicate hf; trivial
                 · obtain ⟨o, l, rfl, _, hl, hle⟩ := h2.mem f hf
-                  simp only [rlen]
-                  rw [if_neg (by omega)]
+                  simp only []
                   omega
               · simp only [List.mem_singleton] at hf
                 subst hf
-                simp only [rlen]
+                simp only []
                 omega
             · rcases h2.head with ⟨rfl, rfl⟩ | ⟨l, fs', rfl⟩
               · exact ⟨QFrame.crypto (0 : Nat) 0, by simp, rfl⟩
@@ -161,15 +167,15 @@ theorem rfPlan_spec (c : RFCfg) (data : List UInt8) (d : Draws) (hrep : data.len
               by_cases hlt : i < off'
               · obtain ⟨o, l, hm, ho1, ho2⟩ := h2.cover i (Nat.zero_le _) hlt
                 refine ⟨o, l, by simp [hm], by omega, ?_⟩
-                simp only [rlen]
-                have hl1 : 1 ≤ l := by
-                  obtain ⟨o', l', e, _, hl', _⟩ := h2.mem _ hm
-                  simp only [QFrame.crypto.injEq] at e
-                  omega
+                obtain ⟨o', l', e, _, hl', hle'⟩ := h2.mem _ hm
+                simp only [QFrame.crypto.injEq] at e
+                have hst : rstart 0 data.length (o : Int) = o := by unfold rstart; omega
+                simp only [rlen, hst]
                 rw [if_neg (by omega)]
                 omega
               · refine ⟨off', 0, by simp, by omega, ?_⟩
-                simp [rlen]
+                have hst : rstart 0 data.length (off' : Int) = off' := by unfold rstart; omega
+                simp [rlen, hst]
                 omega
           obtain ⟨dry, hdry, _⟩ := qfBuild_of_plan (base := 0) plan (by omega)
           rw [hdry]
